@@ -311,7 +311,9 @@ def run_schedule(c, schedule):
         _prefill(dbfile, c)
         s = Scheduler(dbfile, c["programs"], apply_op, max_ids=c.get("max_ids", 1024), seed=c.get("seed", 0))
         results = s.run(schedule)
-        return results, dump(dbfile), s.trace
+        info = {"internal_cleanup": any(sql.lstrip().upper().startswith("DELETE") and p.ops[oi][0] == "get"
+                                        for p in s.procs for (oi, sql) in p.statements if 0 <= oi < len(p.ops))}
+        return results, dump(dbfile), (s.trace, info)
     finally:
         S.uninstall_fakes(saved)
         shutil.rmtree(td, ignore_errors=True)
@@ -436,7 +438,7 @@ def block_structure_reference(ctx: Ctx, c, force=False):
         S.uninstall_fakes(saved)
 
 
-def judge(ctx: Ctx, c, schedule, results, final, trace):
+def judge(ctx: Ctx, c, schedule, results, final, trace, trace_info=None):
     im = _im()
     case = dict(c, schedule=schedule, k="schedule")
     gets = {}
@@ -457,7 +459,13 @@ def judge(ctx: Ctx, c, schedule, results, final, trace):
                 gets.setdefault((op[2], op[3], op[4]), []).append((op[1], r, pi))
     # (iv) linearizability: results + final database equal those of SOME one-at-a-time order
     nops = sum(len(p) for p in c["programs"])
-    if c.get("linearize", True) and nops <= 6:
+    # A large-subspace get_id that ran out of samples performs internal clean-ups between its transactions; the
+    # theorem (C03.linearizable) exposes them as separate public clean-up operations, so such a run is a sequential
+    # run of requests *plus those clean-ups*, not necessarily of the requests alone: not judged by this oracle.
+    internal_cleanup = bool(trace_info and trace_info.get("internal_cleanup"))
+    if internal_cleanup:
+        ctx.count("linearizability-not-judged:internal-cleanup")
+    if c.get("linearize", True) and nops <= 6 and not internal_cleanup:
         outs = sequential_outcomes(c)
         mine = json.dumps([[[_res(r) for (_, r) in rs] for rs in results], final], sort_keys=True, default=list)
         ctx.count("linearizability-checked")
@@ -503,14 +511,14 @@ def explore(ctx: Ctx, c, limit):
     n = 0
     while stack and n < limit and ctx.time_left() > 0:
         prefix = stack.pop()
-        results, final, trace = run_schedule(c, prefix)
+        results, final, (trace, tinfo) = run_schedule(c, prefix)
         n += 1
         actual = [p for (p, _) in trace]
         key = tuple(actual)
         if key in seen:
             continue
         seen.add(key)
-        judge(ctx, c, actual, results, final, trace)
+        judge(ctx, c, actual, results, final, trace, tinfo)
         ctx.count("schedules")
         nprocs = len(c["programs"])
         # alternatives after the prefix: at step i choose another process that was still alive
@@ -534,8 +542,8 @@ def check_case(ctx: Ctx, c: dict):
         ctx.count("explored-scenarios")
         ctx.extra["schedules_run"] = ctx.extra.get("schedules_run", 0) + n
     elif c["k"] == "schedule":
-        results, final, trace = run_schedule(c, c["schedule"])
-        judge(ctx, c, c["schedule"], results, final, trace)
+        results, final, (trace, tinfo) = run_schedule(c, c["schedule"])
+        judge(ctx, c, c["schedule"], results, final, trace, tinfo)
         ctx.count("schedules")
     elif c["k"] == "stress":
         stress(ctx, c)
@@ -657,6 +665,9 @@ def cases(ctx: Ctx):
             progs.append(prog)
         sched = [rng.randrange(nproc) for _ in range(60)]
         yield dict(k="schedule", programs=progs, schedule=sched, max_ids=rng.choice([1024, 2, 1024]))
+    # first-open race: several real processes open a fresh file together (non-deterministic; a failure is real)
+    for _ in range(3 if ctx.quick else 10):
+        yield dict(k="stress", procs=12, space="24bit", b=3, e=4, n=2)
     if not ctx.quick:
         for procs in (2, 4, 8, 16):
             for (space, b, e) in [("32bit", 0, 256), ("8bit", 1, 256), ("24bit", 3, 4)]:
